@@ -36,9 +36,12 @@ KNOWN = [
     (607, r"^generic\.Value\.MarshalTo$", {"panic"}, None, r"nil pointer dereference"),
     # native j2t reads past the end of a text that ends inside a number / literal
     (608, r"^j2t$", {"panic", "overread", "segv"}, "xjsonend", r"invalid memory address|fault"),
+    (608, r"^j2t$", {"panic", "overread", "segv"}, "xjsonstr", r"invalid memory address|fault"),
     # j2p: sonic ast reads past the end of a text that ends inside a number / literal; nil field for a top-level non-object
     (609, r"^j2p$", {"panic", "overread", "segv"}, "xjsonend", r"invalid memory address|fault"),
-    (609, r"^j2p$", {"panic"}, "xjsontop", r"nil pointer dereference"),
+    (609, r"^j2p$", {"panic", "overread", "segv"}, "xjsonstr", r"invalid memory address|fault"),
+    # (nil descriptor in the visitor callbacks: also on VALID JSON whose map value message itself holds a map, decode.go:503)
+    (609, r"^j2p$", {"panic"}, None, r"nil pointer dereference"),
     # proto/generic marshalTo allocates a buffer per nesting level (quadratic in depth)
     (610, r"^pgeneric\.Value\.MarshalTo$", {"alloc"}, "xdeep", None),
 ]
